@@ -141,6 +141,40 @@ func init() {
 			fr.i.ps.notes = appendUnique(fr.i.ps.notes, strArg(args[0]))
 			return nil
 		},
+		"Show": func(fr *frame, args []value) value {
+			t, _ := fr.i.termOf(args[1])
+			fr.i.ps.notes = append(fr.i.ps.notes, strArg(args[0])+" = "+fr.i.tt.show(t, 7))
+			return nil
+		},
+		"ShowUFDiff": func(fr *frame, args []value) value {
+			t, _ := fr.i.termOf(args[1])
+			var ufs []*Term
+			seen := map[int]bool{}
+			var walk func(x *Term)
+			walk = func(x *Term) {
+				if seen[x.ID] {
+					return
+				}
+				seen[x.ID] = true
+				if x.Op == OpUF && strings.HasPrefix(x.Name, "AES") {
+					ufs = append(ufs, x)
+				}
+				for _, a := range x.Args {
+					walk(a)
+				}
+			}
+			walk(t)
+			msg := fmt.Sprintf("%s: %d AES applications", strArg(args[0]), len(ufs))
+			for a := 0; a < len(ufs) && a < 4; a++ {
+				for b := a + 1; b < len(ufs) && b < 4; b++ {
+					if ufs[a].Name == ufs[b].Name {
+						msg += fmt.Sprintf("\n  %d vs %d: %s", ufs[a].ID, ufs[b].ID, firstDiff(fr.i.tt, ufs[a], ufs[b], 0))
+					}
+				}
+			}
+			fr.i.ps.notes = append(fr.i.ps.notes, msg)
+			return nil
+		},
 		"Bound": func(fr *frame, args []value) value {
 			fr.i.ps.bounds = appendUnique(fr.i.ps.bounds, strArg(args[0]))
 			return nil
@@ -203,18 +237,18 @@ func init() {
 	}
 
 	symExternals = map[string]externalFn{
-		"fmt.Errorf":  extErrorf,
-		"fmt.Sprintf": extSprintf,
-		"fmt.Sprint":  func(fr *frame, args []value) value { return "<fmt.Sprint>" },
-		"fmt.Printf":  func(fr *frame, args []value) value { return tuple{0, iface{}} },
-		"fmt.Println": func(fr *frame, args []value) value { return tuple{0, iface{}} },
-		"fmt.Print":   func(fr *frame, args []value) value { return tuple{0, iface{}} },
-		"fmt.Fprintf": func(fr *frame, args []value) value { return tuple{0, iface{}} },
-		"log.Printf":  func(fr *frame, args []value) value { return nil },
+		"fmt.Errorf":              extErrorf,
+		"fmt.Sprintf":             extSprintf,
+		"fmt.Sprint":              func(fr *frame, args []value) value { return "<fmt.Sprint>" },
+		"fmt.Printf":              func(fr *frame, args []value) value { return tuple{0, iface{}} },
+		"fmt.Println":             func(fr *frame, args []value) value { return tuple{0, iface{}} },
+		"fmt.Print":               func(fr *frame, args []value) value { return tuple{0, iface{}} },
+		"fmt.Fprintf":             func(fr *frame, args []value) value { return tuple{0, iface{}} },
+		"log.Printf":              func(fr *frame, args []value) value { return nil },
 		"regexp.MustCompile":      opaqueRegexp,
 		"regexp.MustCompilePOSIX": opaqueRegexp,
-		"encoding/binary.Read":  extBinaryRead,
-		"encoding/binary.Write": extBinaryWrite,
+		"encoding/binary.Read":    extBinaryRead,
+		"encoding/binary.Write":   extBinaryWrite,
 		"time.Now": func(fr *frame, args []value) value {
 			return zero(fr.fn.Signature.Results().At(0).Type())
 		},
@@ -832,4 +866,19 @@ func callMethodArgs(i *interpreter, fr *frame, recv iface, name string, args ...
 		}
 	}
 	panic(engineError("method " + name + " not found on " + recv.t.String()))
+}
+
+func firstDiff(tt *TermTable, a, b *Term, depth int) string {
+	if a == b {
+		return "identical"
+	}
+	if a.Op != b.Op || a.W != b.W || len(a.Args) != len(b.Args) || a.Name != b.Name || a.Val != b.Val || a.Hi != b.Hi || a.Lo != b.Lo {
+		return fmt.Sprintf("at depth %d: %s  VS  %s", depth, tt.show(a, 4), tt.show(b, 4))
+	}
+	for k := range a.Args {
+		if a.Args[k] != b.Args[k] {
+			return fmt.Sprintf("arg %d -> %s", k, firstDiff(tt, a.Args[k], b.Args[k], depth+1))
+		}
+	}
+	return "same shape, different ids?"
 }
